@@ -176,6 +176,7 @@ func TsigGenerateWithProvider(m *Msg, provider TsigProvider, requestMAC string, 
 	rr := m.Extra[len(m.Extra)-1].(*TSIG)
 	m.Extra = m.Extra[0 : len(m.Extra)-1] // kill the TSIG from the msg
 	mbuf, err := m.Pack()
+	m.Extra = append(m.Extra, rr) // and put it back: the caller can sign and send m again
 	if err != nil {
 		return nil, "", err
 	}
@@ -218,7 +219,7 @@ func TsigGenerateWithProvider(m *Msg, provider TsigProvider, requestMAC string, 
 	}
 	mbuf = append(mbuf, tbuf[:off]...)
 	// Update the ArCount directly in the buffer.
-	binary.BigEndian.PutUint16(mbuf[10:], uint16(len(m.Extra)+1))
+	binary.BigEndian.PutUint16(mbuf[10:], uint16(len(m.Extra)))
 
 	return mbuf, t.MAC, nil
 }
